@@ -88,13 +88,18 @@ Commit == /\ l <= Len(Trace) /\ Trace[l].ev = "commit" /\ ~skip
                 ELSE skip' = FALSE
           /\ l' = l + 1 /\ UNCHANGED done
 
+\* The structure may follow the code as it is (delta builds do not consult the ignore file) or
+\* the proposed fix (they do); the property is evaluated on the views either way.
 IndexEv ==
   /\ l <= Len(Trace) /\ Trace[l].ev = "index" /\ ~skip
   /\ LET e    == Trace[l]
          req  == [delta |-> e.delta, brs |-> e.brs, opt |-> e.opt, thr |-> e.thr]
          full == IsFull(st.ig, st.ix, st.heads, req)
-         nix  == Index(st.ig, st.ix, st.heads, st.vers, req)
-         devN == IF full THEN FALSE ELSE st.dev \/ DeltaIgnoreDeviates(st.ig, st.ix, st.heads, req)
+         nixA == Index(st.ig, FALSE, st.ix, st.heads, st.vers, req)
+         nixB == Index(st.ig, TRUE, st.ix, st.heads, st.vers, req)
+         useB == ~ShardsConform(e.shards, nixA.shards) /\ ShardsConform(e.shards, nixB.shards)
+         nix  == IF useB THEN nixB ELSE nixA
+         devN == IF full THEN FALSE ELSE st.dev \/ DeltaIgnoreDeviates(st.ig, useB, st.ix, st.heads, req)
          B    == ToSet(st.branches)
          vb(b) == e.views[CHOOSE i \in DOMAIN e.views : e.views[i].b = b].docs
          want(b) == IF b \in ToSet(req.brs) THEN Visible(st.ig, st.heads[b]) ELSE NoFn
